@@ -84,24 +84,26 @@ func newNode() *Node {
 }
 
 func (n *Node) update(topic format.Topic, f func([]byte) []byte) {
-	topic, token := topic.Next()
-	if token == "" {
-		n.Data = f(n.Data)
+	// Next returns a nil remainder after the last level; an empty token is an
+	// empty topic level ("a//b", "/a", "a/"), not the end of the topic.
+	rest, token := topic.Next()
+	if n.Children == nil {
+		// nodes rebuilt by Load have no map when they had no children
+		n.Children = make(map[string]*Node)
+	}
+	child, ok := n.Children[token]
+	if !ok {
+		child = newNode()
+		n.Children[token] = child
+	}
+	if rest == nil {
+		child.Data = f(child.Data)
 	} else {
-		if n.Children == nil {
-			// nodes rebuilt by Load have no map when they had no children
-			n.Children = make(map[string]*Node)
-		}
-		child, ok := n.Children[token]
-		if !ok {
-			child = newNode()
-			n.Children[token] = child
-		}
-		child.update(topic, f)
+		child.update(rest, f)
+	}
 
-		if len(child.Data) == 0 && len(child.Children) == 0 {
-			delete(n.Children, token)
-		}
+	if len(child.Data) == 0 && len(child.Children) == 0 {
+		delete(n.Children, token)
 	}
 }
 
@@ -114,22 +116,22 @@ func (this *Node) iterate(iterator NodeIterator) {
 	}
 }
 func (this *Node) walk(topic format.Topic, iterator NodeIterator) {
-	topic, token := topic.Next()
-	if token == "" {
-		iterator(this.Data)
-		// a trailing multi-level wildcard also matches its parent level
-		if n, ok := this.Children[MWC]; ok {
-			iterator(n.Data)
-		}
-		return
-	}
+	rest, token := topic.Next()
 
 	for k, n := range this.Children {
 		// If the key is "#", then these subscribers are added to the result set
 		if k == MWC {
 			iterator(n.Data)
 		} else if k == SWC || k == token {
-			n.walk(topic, iterator)
+			if rest != nil {
+				n.walk(rest, iterator)
+				continue
+			}
+			iterator(n.Data)
+			// a trailing multi-level wildcard also matches its parent level
+			if mwc, ok := n.Children[MWC]; ok {
+				iterator(mwc.Data)
+			}
 		}
 	}
 }
